@@ -422,6 +422,43 @@ func patternsC15(c *Ctx) {
 		}
 		c.Check(blank, "C15.patterns", gname+": (c) password may contain blanks", pos, "the captured span stops at the first blank: WITH PASSWORD 'my secret' leaks ` secret'`")
 		c.Check(dq, "C15.patterns", gname+": (c) password may contain double quotes", pos, "the captured span stops at a double quote inside a single-quoted password")
+		// (g) where the literal's body has an escape branch (backslash + any
+		// character), the plain branch must leave the backslash to it
+		var stars func(r *syntax.Regexp)
+		nEsc := 0
+		stars = func(r *syntax.Regexp) {
+			if (r.Op == syntax.OpStar || r.Op == syntax.OpPlus) && len(r.Sub) == 1 {
+				alt := r.Sub[0]
+				for alt.Op == syntax.OpCapture && len(alt.Sub) == 1 {
+					alt = alt.Sub[0]
+				}
+				if alt.Op == syntax.OpAlternate {
+					var plain *syntax.Regexp
+					hasEsc := false
+					for _, br := range alt.Sub {
+						switch {
+						case br.Op == syntax.OpCharClass:
+							plain = br
+						case br.Op == syntax.OpConcat && len(br.Sub) == 2 && br.Sub[0].Op == syntax.OpLiteral && len(br.Sub[0].Rune) == 1 && br.Sub[0].Rune[0] == '\\':
+							hasEsc = true
+						}
+					}
+					if plain != nil && hasEsc {
+						nEsc++
+						key := fmt.Sprintf("%s: (g) escape branch #%d is reachable", gname, nEsc)
+						if classHas(plain, '\\') {
+							c.Bad("C15.patterns", key, pos, "the plain branch of the quoted literal also matches a backslash, so the escape branch never fires: an escaped quote ends the match and the rest of the password stays in the text")
+						} else {
+							c.OK("C15.patterns", key, pos, "the plain branch excludes the backslash")
+						}
+					}
+				}
+			}
+			for _, sub := range r.Sub {
+				stars(sub)
+			}
+		}
+		stars(capt)
 		// (f) what lies between the keywords and `=` must admit a quoted name containing `=`
 		for i, el := range seq {
 			if (el.Op == syntax.OpStar || el.Op == syntax.OpPlus) && el.Sub[0].Op == syntax.OpCharClass && !classHas(el.Sub[0], '=') && classHas(el.Sub[0], 'a') {
